@@ -289,7 +289,8 @@ impl Def {
             args.push(format!("priority = {prio}"));
         }
         if p.ignore_case {
-            args.push("ignore(case)".to_string());
+            // both spellings of the flag list are accepted
+            args.push(if (leaf + def_name.len()) % 4 == 3 { "ignore(case,)" } else { "ignore(case)" }.to_string());
         }
         if let Some(g) = p.allow_greedy {
             args.push(format!("allow_greedy = {g}"));
@@ -478,10 +479,29 @@ fn cb_expr_of(p: &Pat, cb: &Cb, def: &str, leaf: usize) -> String {
     }
 }
 
+/// Inline closures whose body is not one braced block: 1 = `({ .. }) ^ 1` (value callbacks), 2 = `({ .. }) == false`
+/// (bool callbacks); the block computes the complement so that the closure as a whole means the same as shape 0.
+pub fn inline_shape(cb: &Cb) -> u8 {
+    if !cb.inline || cb.salt % 3 != 1 {
+        return 0;
+    }
+    match cb.ret {
+        CbRet::Val => 1,
+        CbRet::Bool => 2,
+        _ => 0,
+    }
+}
+
 fn cb_expr(cb: &Cb, def: &str, leaf: usize) -> String {
     if cb.inline {
         // placeholder replaced by the real body in `render_full`
-        format!("|lex| {{ {} }}", INLINE_MARK.replace("LEAF", &leaf.to_string()).replace("DEF", def))
+        let mark = INLINE_MARK.replace("LEAF", &leaf.to_string()).replace("DEF", def);
+        match inline_shape(cb) {
+            1 => return format!("|lex| ({{ {mark} }}) ^ 1"),
+            2 => return format!("|lex| ({{ {mark} }}) == false"),
+            _ => {}
+        }
+        format!("|lex| {{ {} }}", mark)
     } else {
         cb_fn_name(def, leaf)
     }
@@ -532,6 +552,8 @@ impl Def {
         let e = self.err_val(leaf);
         let tail = match cb.ret {
             CbRet::Unit | CbRet::SkUnit => "let _ = h;".to_string(),
+            CbRet::Bool if inline_shape(cb) == 2 => "h % 2 != 0".into(),
+            CbRet::Val if inline_shape(cb) == 1 => "h ^ 1".into(),
             CbRet::Bool => "h % 2 == 0".into(),
             CbRet::Val => "h".into(),
             CbRet::OptVal => "if h % 3 == 0 { None } else { Some(h) }".into(),
